@@ -8,7 +8,8 @@ Local Open Scope N_scope.
 Inductive input :=
 | ITable (file : bytes) (cnt : N) (addrs : list bytes)
 | IJournal (data : bytes)
-| IManifest (data : bytes).
+| IManifest (data : bytes)
+| IResolve (file : bytes) (cnt : N) (shorts : list bytes).
 
 (* codes
    o_open  : 0 ok | 1 err | 2 panic / worker crash
@@ -17,7 +18,9 @@ Inductive input :=
              | 3 err | 4 panic | 5 err from snappy after the checksum passed
    o_iter  : 0 ok | 1 delivered a chunk that does not hash to its address | 2 err | 3 panic | 4 not run / any
    o_gm    : 0 ok | 1 delivered a wrong chunk | 2 err | 3 crash | 4 not run / any
-   o_class : 0 ok | 1 err | 2 panic | 3 data loss error        (journal scan, manifest parse) *)
+   o_class : 0 ok | 1 err | 2 panic | 3 data loss error        (journal scan, manifest parse)
+   IResolve: o_recs holds one (0, code, concatenated 20-byte hashes, number of hashes) per short
+             prefix, code 0 ok | 1 err | 2 panic *)
 Record obs := {
   o_open : N; o_res : list (N * N); o_iter : N; o_itern : N; o_gm : N;
   o_class : N; o_recs : list (N * N * bytes * N); o_off : N;
@@ -68,11 +71,25 @@ Definition manifest_obs (data : bytes) : obs :=
                o_man := Some (m_vers m, m_nbf m, m_lock m, m_root m, m_gcgen m, m_specs m) |}
   end.
 
+Definition resolve_obs (file : bytes) (cnt : N) (shorts : list bytes) : obs :=
+  match open_table file cnt with
+  | Err => {| o_open := 1; o_res := []; o_iter := 4; o_itern := 0; o_gm := 4; o_class := 0; o_recs := []; o_off := 0; o_man := None |}
+  | Panic => {| o_open := 2; o_res := []; o_iter := 4; o_itern := 0; o_gm := 4; o_class := 0; o_recs := []; o_off := 0; o_man := None |}
+  | Ok t =>
+    {| o_open := 0; o_res := []; o_iter := 4; o_itern := 0; o_gm := 4; o_class := 0;
+       o_recs := map (fun s => match resolve t s with
+                               | Ok hs => (0, 0, concat hs, N.of_nat (length hs))
+                               | Err => (0, 1, [], 0)
+                               | Panic => (0, 2, [], 0) end) shorts;
+       o_off := 0; o_man := None |}
+  end.
+
 Definition model_obs (i : input) : obs :=
   match i with
   | ITable f c a => table_obs f c a
   | IJournal d => journal_obs d
   | IManifest d => manifest_obs d
+  | IResolve f c ss => resolve_obs f c ss
   end.
 
 (* comparison: [m] is the model's observation, [o] the implementation's *)
@@ -127,7 +144,15 @@ Definition oracle (i : input) (o : obs) : bool :=
   && forallb (fun r => negb (fst r =? 2) && negb (snd r =? 2) && negb (snd r =? 4)) (o_res o)
   && negb (o_iter o =? 1) && negb (o_iter o =? 3)
   && negb (o_gm o =? 1) && negb (o_gm o =? 3)
-  && negb (o_class o =? 2).
+  && negb (o_class o =? 2)
+  && match i with
+     | IResolve _ _ _ => forallb (fun r => negb (snd (fst (fst r)) =? 2)) (o_recs o)
+     | _ => true
+     end.
+
+(* caller-side precondition of ResolveShortHash (not file content): at most 32 base32 characters *)
+Definition input_wf (i : input) : bool :=
+  match i with IResolve _ _ ss => forallb valid_short ss | _ => true end.
 
 Definition check_case (c : case) : N :=
   (if obs_eqb (model_obs (fst c)) (snd c) then 0 else 1)
